@@ -11,6 +11,7 @@ import (
 
 	"verifharness/canon"
 	"verifharness/fw"
+	"verifharness/gen"
 	"verifharness/hx"
 )
 
@@ -204,7 +205,7 @@ func (s *c02Seq) seed() {
 // step performs one derived operation; returns false after a violation.
 func (s *c02Seq) step() bool {
 	r := s.r
-	switch r.Intn(35) {
+	switch r.Intn(37) {
 	case 0, 1, 2, 3:
 		if v := s.pick(isSeqN); v != nil {
 			n := 1 + r.Intn(2)
@@ -383,6 +384,31 @@ func (s *c02Seq) step() bool {
 			return false
 		}
 		return s.effect(fmt.Sprintf("(list (eval %s) (eval %s))", cv.name, cv.name), "eval-quoted-code")
+	case 35, 36:
+		// closures made in successive iterations of a self-recursive tail loop each keep the parameters of their own
+		// iteration (a vector that grows from call to call)
+		if a := s.pick(isVecN); a != nil {
+			fn := fmt.Sprintf("collect%d", len(s.vals))
+			form := gen.Pick(r, []string{"(if (< i 3) (%[1]s (+ i 1) (conj v i) (conj acc (fn () (list i v)))) acc)", "(cond (< i 3) (%[1]s (+ i 1) (conj v i) (conj acc (fn () (list i v)))) :else acc)", "(do (if (< i 3) (%[1]s (+ i 1) (conj v i) (conj acc (fn () (list i v)))) acc))"})
+			if !s.effect(fmt.Sprintf("(def %s (fn (i v acc) %s))", fn, fmt.Sprintf(form, fn)), "loop-closures-def") {
+				return false
+			}
+			if !s.bind(fmt.Sprintf("(map (fn (f) (f)) (%s 0 %s []))", fn, a.name), "loop-closures", false, a) {
+				return false
+			}
+			got := s.vals[len(s.vals)-1]
+			want := make([]*canon.Node, 3)
+			cur := append([]*canon.Node(nil), a.snap.L...)
+			for i := 0; i < 3; i++ {
+				want[i] = canon.Li(canon.In(i), canon.Ve(append([]*canon.Node(nil), cur...)...))
+				cur = append(cur, canon.In(i))
+			}
+			if !canon.Equal(got.snap, canon.Li(want...)) {
+				s.c.Violate(fw.Violation{Key: "closure-view-changed:loop", What: fmt.Sprintf("closures collected over three iterations of %s starting from %s returned %s, expected %s", fn, canon.Render(a.snap), canon.Render(got.snap), canon.Render(canon.Li(want...))), Input: strings.Join(s.log, "\n")})
+				return false
+			}
+			return true
+		}
 	case 33, 34:
 		// a value seen through a closure: the closure captured the binding before an inner let of the same scope bound
 		// the same name to an extended value; what the closure returns is still the value it captured
